@@ -113,10 +113,10 @@ def facts_for(repo="/repo", config="default"):
             return None
         with open(marker, "w") as f:
             f.write(time.strftime("%Y-%m-%dT%H:%M:%S"))
-        # keep the cache small: drop all but the 6 newest fact sets
+        # keep the cache small: drop all but the 40 newest fact sets
         root = os.path.join(WORK, "facts")
         ds = sorted((d for d in glob.glob(os.path.join(root, "*")) if os.path.isdir(d)), key=os.path.getmtime)
-        for d in ds[:-6]:
+        for d in ds[:-40]:
             shutil.rmtree(d, ignore_errors=True)
         return out_dir
     finally:
